@@ -17,7 +17,7 @@ R9 a new Link type-checks the elements of `interfaces` (Interface objects only) 
 """
 import ast
 
-from ..normalize import branch_values, Unknown, inline, local_env, expand, canon, ctext, conjuncts
+from ..normalize import branch_values, Unknown, inline, local_env, expand, canon, ctext, conjuncts, eval_test, value_under
 import re
 
 from ..core import AnalysisError, norm, loc, walk_no_nested, attr_chain, call_name, kwarg, func_params
@@ -283,8 +283,14 @@ def run(prog, rep):
             for n in walk_no_nested(fn):
                 if isinstance(n, ast.Return) and n.value is not None:
                     v = n.value
-                    txt = ast.unparse(v)
-                    if '_interfaces' in txt:
+                    cache_ref = any(isinstance(x, ast.Attribute) and x.attr == '_interfaces' for x in ast.walk(v))
+                    if isinstance(v, ast.Name):
+                        # a local that merely names the cache
+                        defs_ = [a.value for a in walk_no_nested(fn) if isinstance(a, ast.Assign) and any(isinstance(t, ast.Name) and t.id == v.id for t in a.targets)]
+                        if defs_ and all(isinstance(d, ast.Attribute) and d.attr == '_interfaces' for d in defs_):
+                            cache_ref = True
+                            v = defs_[0]
+                    if cache_ref:
                         rep.instance('R5', f'{cls.name}.{name}: returns {norm(v, 60)}')
                         safe = (isinstance(v, ast.Call) and call_name(v) in ('tuple', 'copy', 'list', 'ViewOnlyDict', 'frozenset')) or \
                             (isinstance(v, ast.BinOp))
@@ -495,12 +501,35 @@ def run(prog, rep):
     except Unknown as u:
         raise AnalysisError(f'connect_interface: link type selection not analysable: {u}')
     iparam = [p_ for p_ in func_params(ci) if p_ != 'self'][0]
-    shared = ctext(ast.parse(f'{iparam}.type == InterfaceType.SharedPort', mode='eval').body)
-    not_shared = ctext(ast.parse(f'{iparam}.type != InterfaceType.SharedPort', mode='eval').body)
-    sel = {'shared': {o.vtext for o in outs if shared in o.conds}, 'other': {o.vtext for o in outs if not_shared in o.conds},
-           'unconditional': {o.vtext for o in outs if shared not in o.conds and not_shared not in o.conds}}
+    # the link type chosen for each kind of interface: the ltype argument evaluated under "interface.type is T" (if/else,
+    # conditional expression, lookup table with default alike)
+    cii = inline(prog, ns, ci)
+    cenv = {k_: v_ for k_, v_ in local_env(cii).items() if isinstance(v_, (ast.Name, ast.Attribute, ast.Subscript))}
+    fold8 = lambda e_: prog.const_eval(e_, ns.module, ns)
+    tkey = ctext(ast.parse(f'{iparam}.type', mode='eval').body)
+    sel = {}
+    for T in prog.enum_members('fim.slivers.interface_info:InterfaceType'):
+        bind = {tkey: prog.const_eval(ast.parse(f'InterfaceType.{T}', mode='eval').body, ns.module, ns)}
+        vals = set()
+        for o in outs:
+            holds = True
+            for n_ in o.cond_nodes:
+                try:
+                    if any(ctext(x) == tkey for x in ast.walk(n_)) and not eval_test(n_, bind, fold8):
+                        holds = False
+                        break
+                except Unknown:
+                    pass
+            if not holds:
+                continue
+            try:
+                v_ = value_under(o.value, bind, fold8, cenv, cii)
+                vals.add(getattr(v_, 'name', str(v_)))
+            except Unknown:
+                vals.add('?' + o.vtext)
+        sel[T] = vals
     rep.instance('R8', f'connect_interface: link type by interface kind {dict((k, sorted(v)) for k, v in sel.items())}')
-    if sel['shared'] != {'LinkType.L2Path'} or sel['other'] != {'LinkType.Patch'} or sel['unconditional']:
+    if not sel or any(v != ({'L2Path'} if k == 'SharedPort' else {'Patch'}) for k, v in sel.items()):
         rep.violation('R8', loc(ns.module, ci), 'NetworkService.connect_interface', 'link type selection', 'shared ports are linked by L2Path, others by Patch')
 
 
